@@ -2591,6 +2591,9 @@ EbErrorType decode_multiple_obu(EbDecHandle *dec_handle_ptr, uint8_t **data, siz
                 assert(dec_handle_ptr->seen_frame_header == 1);
             }
 
+            // nothing of a frame can be parsed before a sequence header has been accepted
+            if (!dec_handle_ptr->seq_header_done)
+                return EB_Corrupt_Frame;
             if (!dec_handle_ptr->seen_frame_header) {
                 dec_handle_ptr->seen_frame_header = 1;
                 status                            = read_frame_header_obu(
@@ -2605,12 +2608,15 @@ EbErrorType decode_multiple_obu(EbDecHandle *dec_handle_ptr, uint8_t **data, siz
 
             if (obu_header.obu_type != OBU_FRAME)
                 break; // For OBU_TILE_GROUP comes under OBU_FRAME
+            // an OBU_FRAME carries tile data: it cannot be a show-existing-frame header
+            if (dec_handle_ptr->frame_header.show_existing_frame)
+                return EB_Corrupt_Frame;
             goto TITLE_GROUP;
 
         case OBU_TILE_GROUP:
         TITLE_GROUP:
             PRINT_NAME("**************OBU_TILE_GROUP*******************");
-            if (!dec_handle_ptr->seen_frame_header)
+            if (!dec_handle_ptr->seen_frame_header || !dec_handle_ptr->seq_header_done)
                 return EB_Corrupt_Frame;
             status = read_tile_group_obu(&bs,
                                          dec_handle_ptr,
